@@ -132,6 +132,16 @@ varintDimensionPair varintDimensionPairEncode(void *dst, const size_t row, const
     __CPROVER_ensures(VARINT_DIMENSION_PAIR_BYTE_LENGTH(RET) == ENC_LEN)
     __CPROVER_ensures(g_k >= ENC_LEN || U8(dst)[g_k] == ENC_BYTE(g_k));
 
+/* the shared offset helper: header length + (row * cols + col) * width, cols read from the header */
+static inline size_t getEntryByteOffset(const void *_src, const size_t row, const size_t col,
+                                        const varintWidth entryWidthBytes, const varintDimensionPair dimension)
+    __CPROVER_requires(entryWidthBytes >= 1 && entryWidthBytes <= 8)
+    REQ_HDR(_src)
+    __CPROVER_requires(__CPROVER_r_ok(_src, G_HDR))
+    REQ_HDR_BYTES(_src)
+    __CPROVER_assigns()
+    __CPROVER_ensures(RET == CELL_OFF(entryWidthBytes));
+
 uint64_t varintDimensionPairEntryGetUnsigned(const void *_src, const size_t row, const size_t col,
                                              const varintWidth entryWidthBytes, const varintDimensionPair dimension)
     __CPROVER_requires(entryWidthBytes >= 1 && entryWidthBytes <= 8)
@@ -236,6 +246,11 @@ void H_dimPairEncode(void) { SETG(); void *dst; size_t row, col; varintDimension
 void H_dimPairDepair(void) { unsigned wr, wc, sp; w_dimPairDepair(wr, wc, sp); CANARY(); }
 void H_dimUnpackMacro(void) { uint64_t r, c; unsigned dimension; w_dimUnpackMacro(r, c, dimension); CANARY(); }
 void H_dimPairDecode(void) { uint64_t rows, cols; w_dimPairDecode(rows, cols); CANARY(); }
+void H_dimEntryOffset(void) {
+    SETG(); size_t row, col; varintWidth w; varintDimensionPair dimension;
+    uint8_t *p = malloc(G_HDR); __CPROVER_assume(p != NULL);
+    getEntryByteOffset(p, row, col, w, dimension); CANARY();
+}
 void H_dimGetUnsigned(void) { SETG(); void *p; size_t row, col; varintWidth w; varintDimensionPair dimension; varintDimensionPairEntryGetUnsigned(p, row, col, w, dimension); CANARY(); }
 void H_dimSetUnsigned(void) { SETG(); void *p; size_t row, col; uint64_t v; varintWidth w; varintDimensionPair dimension; varintDimensionPairEntrySetUnsigned(p, row, col, v, w, dimension); CANARY(); }
 void H_dimSetFloat(void) { SETG(); void *p; size_t row, col; float v; varintDimensionPair dimension; varintDimensionPairEntrySetFloat(p, row, col, v, dimension); CANARY(); }
